@@ -17,17 +17,17 @@ Property clause → theorem  (model: `Comdex/Model/Liquidation.lean`, both gener
   `C09.slice_panics_iff_counter_exceeds_list` (the list is sliced by bounds computed from an independent counter:
   exactly when that panics — used by C15), `C09.pass_follows_abstract_sweep`.
 * "every position on the unsafe side is seized within a bounded number of blocks (at most two full sweeps)"
-    → FALSE as stated: `C09.two_sweeps_counterexample` (D9, replayed on the real generation-1 code by the harness) and,
-      for generation 2 as it is, `C09.v2_borrow_pass_clobbers_vault_offset` + `C09.v2_vault_starved_counterexample`
-      (a persisting unsafe vault is NEVER examined; replayed on the real code);
-      what IS true: `C09.sweep_live_partial` (excluded adversarial condition: during the `i / batch + 1` blocks of the
+    → FALSE as stated: `C09.two_sweeps_counterexample` (D9, replayed on the real code of both generations by the harness);
+      what IS true: `C09.v2_vault_offset_independent_of_borrow_pass` (since fix 16be2e4 the borrow sweep keeps its own
+      offset: the vault sweep of generation 2 follows the abstract sweep like generation 1), `C09.v2_witness_seized`, `C09.sweep_live_partial` (excluded adversarial condition: during the `i / batch + 1` blocks of the
       sweep some position BEFORE the unsafe one is deleted — closed by its owner or itself seized),
       `C09.two_sweeps_if_one_shift`, `C09.unsafe_processed_is_seized` (a position handed to the step IS seized when
-      liquidation and the auction type are enabled, prices active, no emergency control), `C09.v2_repaired_witness_seized`.
+      liquidation and the auction type are enabled, prices active, no emergency control).
 * "seizure moves exactly the recorded collateral into auction custody and opens exactly one auction for it"
-    → `C09.seize_moves_exactly_collateral`, `C09.seize_opens_one_auction` (vault seizures, both generations);
-      FALSE for the generation-2 borrow SWEEP as it is: `C09.v2_borrow_sweep_leak_counterexample` (D6: the borrow loop is not
-      wrapped, a failing hand-over leaves the flag and the custody move behind, without locked vault or auction).
+    → `C09.seize_moves_exactly_collateral`, `C09.seize_opens_one_auction` (vault seizures, both generations),
+      `C09.borrow_step_atomic` (a borrow step does nothing or the complete seizure) and, for whole blocks and messages,
+      `C09.flagged_borrow_is_backed` (since fix c15713f: every borrow flagged by a hook or message has a new locked vault and
+      a new auction; a failing borrow leaves no writes: `C09.failing_step_leaves_no_writes`).
 -/
 namespace Comdex.C09
 open Comdex Comdex.Liquidation
@@ -39,14 +39,14 @@ open Comdex Comdex.Liquidation
 (the code's `CR(amountIn, principal + interest + closingFee) < MinCr`).  `KeepsB`: a borrow that is not flagged and
 fails `borrowUnsafe e` (ratio > applicable threshold) is still there with an identical record. -/
 theorem safe_never_seized :
-    (∀ fix e batch w w', NodupIds w → NodupB w → (blockV2 fix e batch w).world? = some w' → Removes e w w' ∧ KeepsB e w w') ∧
+    (∀ e batch w w', NodupIds w → NodupB w → (blockV2 e batch w).world? = some w' → Removes e w w' ∧ KeepsB e w w') ∧
     (∀ e batch w w', NodupIds w → (blockV1 e batch w).world? = some w' → Removes e w w') ∧
     (∀ e liqType id w w', NodupIds w → NodupB w → msgLiquidateV2 e liqType id w = some w' → Removes e w w' ∧ KeepsB e w w') ∧
     (∀ e app id w w', NodupIds w → msgLiquidateVaultV1 e app id w = some w' → Removes e w w') :=
-  ⟨fun fix e batch w w' hn hb h => blockV2_safe fix e batch w w' hn hb h,
-   fun e batch w w' hn h => blockV1_safe e batch w w' hn h,
-   fun e t id w w' hn hb h => msgLiquidateV2_safe e t id w w' hn hb h,
-   fun e a id w w' hn h => msgLiquidateVaultV1_safe e a id w w' hn h⟩
+  ⟨fun e batch w w' hn hb h => let r := blockV2_rel e batch w w' hn hb h; ⟨r.1, r.2.1⟩,
+   fun e batch w w' hn h => (blockV1_rel e batch w w' hn h).1,
+   fun e t id w w' hn hb h => let r := msgLiquidateV2_rel e t id w w' hn hb h; ⟨r.1, r.2.1⟩,
+   fun e a id w w' hn h => (msgLiquidateVaultV1_rel e a id w w' hn h).1⟩
 
 /-- the test is the strict one: a vault exactly AT the liquidation ratio is not unsafe -/
 theorem unsafe_test_is_strict (e : Env) (v : Vault) (p : Product) (hp : e.product? v.prod = some p)
@@ -192,23 +192,15 @@ theorem unsafe_processed_is_seized :
   ⟨fun e id w v p hf hp h1 h2 h3 h4 h5 h6 h7 h8 => liquidateVaultV2_seizes e id w v p hf hp h1 h2 h3 h4 h5 h6 h7 h8,
    fun e a w v p h1 hp h2 h3 h4 h5 h6 => liquidateVaultV1_seizes e a w v p h1 hp h2 h3 h4 h5 h6⟩
 
-/-! ### generation 2 as it is: the borrow sweep writes its offset over the vault sweep's -/
+/-! ### generation 2: the vault sweep is not disturbed by the borrow sweep (fix 16be2e4) -/
 
-/-- the borrow pass (no holder was ever stored under its own id 1) stores its range end under id 0 — the vault sweep's key -/
-theorem v2_borrow_pass_clobbers_vault_offset (e : Env) (batch : Nat) (w w' : World)
-    (h1 : w.offsets.get? 1 = none) (h : borrowPassV2 false e batch w = .ok w') :
-    w'.offsets.get? 0 = some (sweepBoundsI (w.borrows.length : Int) 0 (toGoInt batch)).2.toNat := by
-  unfold borrowPassV2 at h
-  simp only [h1, Option.getD_none, Option.isSome_none, Bool.or_self, Bool.false_eq_true, if_false, List.length_map] at h
-  have h0 : toGoInt 0 = 0 := by unfold toGoInt; simp
-  rw [h0] at h
-  split at h
-  · cases h
-  · split at h
-    · cases h
-    · simp only [Outcome.ok.injEq] at h
-      subst h
-      exact Offsets.get?_set_self _ _ _
+/-- **The vault offset after a generation-2 block is the vault pass's own range end**, whatever the borrow pass does
+(any number of borrows, any outcomes of their steps): the two sweeps keep separate offsets. Together with
+`pass_follows_abstract_sweep` the generation-2 vault sweep satisfies `Evolves`, i.e. `sweep_live_partial` applies. -/
+theorem v2_vault_offset_independent_of_borrow_pass (e : Env) (batch : Nat) (w w' : World) (h : blockV2 e batch w = .ok w') :
+    w'.offsets.get? 0 =
+      some (sweepBoundsI (toGoInt w.counter) (toGoInt ((w.offsets.get? 0).getD 0)) (toGoInt batch)).2.toNat :=
+  blockV2_vault_offset e batch w w' h
 
 def witEnv : Env :=
   { assets := [{ id := 1, decimals := 1000000, price := some 1800000 }, { id := 2, decimals := 1000000, price := some 1000000 }]
@@ -221,40 +213,54 @@ def witWorld : World :=
                { id := 3, app := 1, prod := 1, amountIn := 800251, amountOut := 1000000, interest := 0, closingFee := 0 }]
     counter := 3, vaultBal := [(1, 3800253), (2, 0)], auctionBal := [(1, 0), (2, 0)] }
 
-def iterV2 (fix : Bool) : Nat → World → Option World
+def iterV2 : Nat → World → Option World
   | 0, w => some w
-  | n+1, w => match blockV2 fix witEnv 1 w with
-    | .ok w' => iterV2 fix n w'
+  | n+1, w => match blockV2 witEnv 1 w with
+    | .ok w' => iterV2 n w'
     | _ => none
 
-/-- **Generation 2 as it is starves the vault sweep**: batch 1, three vaults, the third unsafe (ratio 1.44 < 1.5), every
-control enabling liquidation: after ANY number of blocks vault 3 is still open — the state after one block is a fixed
-point, the vault sweep restarts at offset 0 every block. Replayed on the real code by the harness. -/
-theorem v2_vault_starved_counterexample :
+/-- the former starvation witness (batch 1, three vaults, the third at ratio 1.44 < 1.5): seized in block 3, exactly
+`amountIn` auctioned. The harness runs the same population on the real code. -/
+theorem v2_witness_seized :
     vaultUnsafe witEnv (witWorld.vaults.getD 2 default) = true ∧
-    ∀ n, ∃ w, iterV2 false (n+1) witWorld = some w ∧ w.vaults.map (·.id) = [1, 2, 3] := by
-  refine ⟨by decide, ?_⟩
-  have hstep : ∀ w, w = { witWorld with offsets := [(0, 0)] } → blockV2 false witEnv 1 w = .ok w := by
-    intro w hw; subst hw; rfl
-  have h0 : blockV2 false witEnv 1 witWorld = .ok { witWorld with offsets := [(0, 0)] } := by rfl
-  have hfix : ∀ n, iterV2 false n { witWorld with offsets := [(0, 0)] } = some { witWorld with offsets := [(0, 0)] } := by
-    intro n
-    induction n with
-    | zero => rfl
-    | succ n ih => unfold iterV2; rw [hstep _ rfl]; exact ih
-  intro n
-  refine ⟨{ witWorld with offsets := [(0, 0)] }, ?_, rfl⟩
-  unfold iterV2
-  rw [h0]
-  exact hfix n
+    ∃ w, iterV2 3 witWorld = some w ∧ w.vaults.map (·.id) = [1, 2] ∧ w.newAuctions.map (·.amount) = [800251] := by
+  exact ⟨by decide, _, rfl, by decide, by decide⟩
 
-/-- with the one-line repair (`holder.AppId = offsetCounterId` in the borrow sweep) the same vault is seized in block 3 -/
-theorem v2_repaired_witness_seized :
-    ∃ w, iterV2 true 3 witWorld = some w ∧ w.vaults.map (·.id) = [1, 2] ∧ w.newAuctions.map (·.amount) = [800251] := by
-  exact ⟨_, rfl, by decide, by decide⟩
+/-! ### generation 2: borrow steps are atomic (fix c15713f) -/
 
+/-- **A borrow step does nothing or everything**: a successful `LiquidateIndividualBorrow` either leaves the state
+unchanged or it addressed an unflagged borrow `b` with ratio above its threshold and produced `borrowSeized w id b` —
+flag set, exactly `b.amountIn` of the collateral asset moved pool → auction account, locked-vault id and auction id
+advanced by one, one locked vault for `b` and one auction over (`b.assetIn`, `b.amountIn`) for that locked vault. -/
+theorem borrow_step_atomic (e : Env) (id : Nat) (w w' : World) (h : liquidateBorrowV2 e id w = some w') :
+    w' = w ∨ ∃ b, w.borrows.find? (·.id == id) = some b ∧ b.liquidated = false ∧ borrowUnsafe e b = true ∧
+      b.amountIn ≤ w.poolBal.get b.assetIn ∧ w' = borrowSeized w id b ∧
+      w'.auctionBal.get b.assetIn = w.auctionBal.get b.assetIn + b.amountIn ∧
+      w'.poolBal.get b.assetIn = w.poolBal.get b.assetIn - b.amountIn ∧
+      w'.newAuctions = w.newAuctions ++ [{ id := w.auctionId + 1, locked := w.lockedId + 1, asset := b.assetIn, amount := b.amountIn }] ∧
+      w'.newLocked = w.newLocked ++ [{ id := w.lockedId + 1, orig := b.id, app := b.app, amountIn := b.amountIn, isBorrow := true }] := by
+  cases liquidateBorrowV2_cases e id w w' h with
+  | inl h => exact Or.inl h
+  | inr h =>
+    obtain ⟨b, hf, hl, hu, hbal, hw⟩ := h
+    refine Or.inr ⟨b, hf, hl, hu, hbal, hw, ?_, ?_, ?_, ?_⟩
+    · rw [hw]; unfold borrowSeized; simp only; exact Bal.get_add_self _ _ _
+    · rw [hw]; unfold borrowSeized; simp only; rw [Bal.get_add_self]; omega
+    · rw [hw]; rfl
+    · rw [hw]; rfl
 
-/-! ### generation 2 as it is: the borrow loop is not wrapped (D6) -/
+/-- a failing step inside `ApplyFuncIfNoError` leaves no writes (the sweep then goes on with the next position) -/
+theorem failing_step_leaves_no_writes (f : World → Option World) (w : World) (h : f w = none) : applyIfNoError f w = w := by
+  unfold applyIfNoError; rw [h]; rfl
+
+/-- **Every flagged borrow is backed**: after any generation-2 block hook and any generation-2 liquidate message, a
+borrow that is flagged `IsLiquidated` was flagged before or there is a NEW locked vault for it and a NEW auction for
+that locked vault over the locked amount; the books only grow. -/
+theorem flagged_borrow_is_backed :
+    (∀ e batch w w', NodupIds w → NodupB w → (blockV2 e batch w).world? = some w' → Backed w w' ∧ Grows w w') ∧
+    (∀ e liqType id w w', NodupIds w → NodupB w → msgLiquidateV2 e liqType id w = some w' → Backed w w' ∧ Grows w w') :=
+  ⟨fun e batch w w' hn hb h => let r := blockV2_rel e batch w w' hn hb h; ⟨r.2.2.2.1, r.2.2.1⟩,
+   fun e t id w w' hn hb h => let r := msgLiquidateV2_rel e t id w w' hn hb h; ⟨r.2.2.2.1, r.2.2.1⟩⟩
 
 def leakEnv : Env :=
   { assets := [{ id := 6, decimals := 1000000, price := some 1400000 }, { id := 7, decimals := 1000000, price := some 2000000 }]
@@ -265,17 +271,15 @@ def leakWorld : World :=
                   liquidated := false, lt := 750000000000000000, ltFirst := 850000000000000000, ltSecond := 750000000000000000 }]
     poolBal := [(6, 1000000000)], auctionBal := [(6, 0)] }
 
-/-- **A seizure without an auction** (generation-2 sweep as it is): the lend app is whitelisted with no auction type
-activated; the unsafe borrow is flagged and its whole collateral moved to the auction account, then `CreateLockedVault`
-fails and the hook returns the error — the writes stay, no locked vault and no auction exist. Inside a transaction
-(`msgLiquidateV2`) the same step is rejected as a whole. Replayed on the real code by the harness. -/
-theorem v2_borrow_sweep_leak_counterexample :
+/-- the former leak witness (lend app whitelisted, no auction type activated, borrow unsafe): the hook now leaves the
+borrow, custody and books untouched and only advances the borrow offset; with Dutch auctions activated the same
+borrow is seized completely. -/
+theorem v2_borrow_witness_atomic :
     borrowUnsafe leakEnv (leakWorld.borrows.getD 0 default) = true ∧
-    (∃ w', (blockV2 false leakEnv 5 leakWorld).world? = some w' ∧
-      w'.borrows.map (·.liquidated) = [true] ∧ w'.auctionBal.get 6 = 100000000 ∧ w'.poolBal.get 6 = 900000000 ∧
-      w'.newAuctions = [] ∧ w'.newLocked = [] ∧ w'.auctionId = 0) ∧
-    msgLiquidateV2 leakEnv 1 1 leakWorld = none := by
-  refine ⟨by decide, ⟨_, rfl, by decide, by decide, by decide, by decide, by decide, by decide⟩, by decide⟩
+    (blockV2 leakEnv 5 leakWorld).world? = some { leakWorld with offsets := [(0, 0), (1, 1)] } ∧
+    (∃ w', (blockV2 { leakEnv with apps := [{ id := 3, wl2 := true, dutch2 := true }] } 5 leakWorld).world? = some w' ∧
+      w'.borrows.map (·.liquidated) = [true] ∧ w'.auctionBal.get 6 = 100000000 ∧ w'.newAuctions.map (·.amount) = [100000000]) := by
+  refine ⟨by decide, rfl, _, rfl, by decide, by decide, by decide⟩
 
 /-! ## seizure effect -/
 
